@@ -90,6 +90,42 @@ func planRoutes(p ScenParams) routePlan {
 	return rp
 }
 
+// globalLines: non-default global settings of the device that the Netspoc side does not manage
+// (logging levels, terminal settings, services, banners).  A "restore the setting when the session
+// ends" or "save what I touched" feature would key on exactly such lines; every console scenario has
+// `logging console <level>` and two or three of the others, chosen by the scenario (deterministic).
+func globalLines(backend, id string) []string {
+	h := 7
+	for _, ch := range id {
+		h = (h*131 + int(ch)) % 1000003
+	}
+	levels := []string{"critical", "warnings", "debugging", "errors"}
+	var pool []string
+	switch backend {
+	case "IOS":
+		pool = []string{"no logging monitor", "logging buffered 16384", "service timestamps log datetime msec",
+			"ip domain name example.com", "no ip http server", "service password-encryption", "ip ssh version 2"}
+	case "ASA":
+		pool = []string{"logging enable", "no logging monitor", "logging buffered warnings", "domain-name example.com",
+			"terminal width 80", "pager lines 24", "logging timestamp", "no snmp-server location"}
+	default:
+		return nil
+	}
+	l := []string{"logging console " + levels[h%len(levels)]}
+	n := 2 + (h/7)%2
+	for i := 0; i < n; i++ {
+		x := pool[(h/11+i*3)%len(pool)]
+		dup := false
+		for _, y := range l {
+			dup = dup || x == y
+		}
+		if !dup {
+			l = append(l, x)
+		}
+	}
+	return l
+}
+
 func asaScenario(p ScenParams) Scenario {
 	var pre strings.Builder
 	if p.YesNo {
@@ -118,6 +154,9 @@ func asaScenario(p ScenParams) Scenario {
 	tbl["sh ver"] = "Cisco Adaptive Security Appliance Software Version 9.4(4)5\n"
 	rp := planRoutes(p)
 	var dev, tgt strings.Builder
+	for _, g := range globalLines("ASA", p.id()) {
+		dev.WriteString(g + "\n")
+	}
 	dev.WriteString("interface Ethernet0/0\n nameif inside\n")
 	for _, r := range rp.dev {
 		fmt.Fprintf(&dev, "route inside 10.%s.0.0 255.255.0.0 %s\n", r[0], r[1])
@@ -157,6 +196,9 @@ func iosScenario(p ScenParams) Scenario {
 	}
 	rp := planRoutes(p)
 	var dev, tgt strings.Builder
+	for _, g := range globalLines("IOS", p.id()) {
+		dev.WriteString(g + "\n")
+	}
 	for _, r := range rp.dev {
 		fmt.Fprintf(&dev, "ip route 10.%s.0.0 255.255.0.0 %s\n", r[0], r[1])
 	}
@@ -212,7 +254,9 @@ func panosScenario(p ScenParams) Scenario {
 	}
 	var dev strings.Builder
 	dev.WriteString("<response status = 'success'>\n <result>\n  <devices>\n   <entry name=\"localhost.localdomain\">\n")
-	dev.WriteString("    <deviceconfig><system><hostname>router</hostname></system></deviceconfig>\n    <vsys>\n")
+	dev.WriteString("    <deviceconfig><system><hostname>router</hostname><login-banner>managed by NetSPoC</login-banner>" +
+		"<timezone>Europe/Berlin</timezone><ntp-servers><primary-ntp-server><ntp-server-address>10.1.1.1</ntp-server-address></primary-ntp-server></ntp-servers>" +
+		"</system><setting><management><idle-timeout>30</idle-timeout></management></setting></deviceconfig>\n    <vsys>\n")
 	for v := 1; v <= nv; v++ {
 		fmt.Fprintf(&dev, "     <entry name=\"vsys%d\">\n     <display-name>FW%d-managed-by-Netspoc</display-name>\n     </entry>\n", v, v)
 	}
